@@ -1,4 +1,6 @@
 """C06 - finite-volume operators obey the discrete divergence theorem."""
+import copy
+
 import numpy as np
 from hypothesis import strategies as st
 
@@ -14,48 +16,105 @@ VOX = {
     "generic": [0.3, 1.7, 0.55],
 }
 
+# payload magnitudes: every flux / cell field is an integer-valued (or k/4) array times 2**sc
+# (exact scaling), so that the laws are checked on data that is not of order one as well
+_ENUM_SC = (0, 0, -40, 33)
+
 
 def enum_cases(tier):
     out = []
     nseeds = 1 if tier == "quick" else 4
     for i, s in enumerate(all_shapes(tier)):
+        per_shape = []
         for vk, v in VOX.items():
             for k in range(nseeds):
-                out.append({"shape": s, "vox": v[: len(s)], "vk": vk, "pseed": 7 * i + k})
+                per_shape.append({"shape": s, "vox": v[: len(s)], "vk": vk, "pseed": 7 * i + k})
         # scalar voxel-size form of the constructor (isotropic), power-of-two and generic
-        out.append({"shape": s, "vox": [0.5, 0.5, 0.5][: len(s)], "vk": "pow2", "pseed": 7 * i + 5, "scalar_vox": True})
-        out.append({"shape": s, "vox": [0.3, 0.3, 0.3][: len(s)], "vk": "generic", "pseed": 7 * i + 6, "scalar_vox": True})
+        per_shape.append({"shape": s, "vox": [0.5, 0.5, 0.5][: len(s)], "vk": "pow2", "pseed": 7 * i + 5,
+                          "scalar_vox": True})
+        per_shape.append({"shape": s, "vox": [0.3, 0.3, 0.3][: len(s)], "vk": "generic", "pseed": 7 * i + 6,
+                          "scalar_vox": True})
+        # the grid of an image (darsia.generate_grid: shape and voxel sizes arrive as lists), and the
+        # constructor's default voxel size
+        vk = ("pow2", "generic")[i % 2]
+        per_shape.append({"shape": s, "vox": VOX[vk][: len(s)], "vk": vk, "pseed": 7 * i + 4, "form": "image"})
+        per_shape.append({"shape": s, "vox": VOX["unit"][: len(s)], "vk": "unit", "pseed": 7 * i + 3,
+                          "form": "default"})
+        for j, c in enumerate(per_shape):
+            c["sc"] = _ENUM_SC[(i + j) % len(_ENUM_SC)]
+        out += per_shape
     return out
 
 
-def gen_cases(tier):
+_FORMS = ["list", "list", "list", "scalar", "image", "image", "intlist", "default"]
+
+
+def gen_cases(tier, dims=(1, 2, 3), thin=True):
     mx = {1: 30, 2: 9, 3: 6} if tier == "quick" else {1: 60, 2: 14, 3: 8}
 
     @st.composite
     def strat(draw):
-        dim = draw(st.sampled_from([1, 2, 3]))
-        shape = draw(gens.shapes(dim, mx[dim]))
-        vk = draw(st.sampled_from(["pow2", "generic"]))
-        vox = draw(gens.voxel_sizes(dim, vk))
+        dim = draw(st.sampled_from(list(dims)))
+        shape = draw(gens.shapes(dim, mx[dim], thin_boost=thin or draw(st.integers(0, 2)) == 0))
+        if all(n == 1 for n in shape) and draw(st.integers(0, 3)) > 0:
+            # grids without any face stay in (empty operators), but rarely
+            shape[draw(st.integers(0, dim - 1))] = draw(st.integers(2, mx[dim]))
+        form = draw(st.sampled_from(_FORMS))
+        if form == "default":
+            vk, vox = "unit", [1.0] * dim
+        elif form == "intlist":
+            # products of small integers are exact, like the power-of-two class
+            vk, vox = "integer", [float(draw(st.integers(1, 9))) for _ in range(dim)]
+        else:
+            vk = draw(st.sampled_from(["pow2", "generic"]))
+            vox = draw(gens.voxel_sizes(dim, vk))
         return {"shape": shape, "vox": vox, "vk": vk, "pseed": draw(st.integers(0, 2**20)),
-                "scalar_vox": draw(st.sampled_from([False, False, False, True])),
+                "scalar_vox": form == "scalar", "form": form,
+                "sc": draw(st.sampled_from([0, 0, -40, 33, draw(st.integers(-60, 60))])),
                 "pt": [draw(st.sampled_from([0.0, 1.0, 0.5, 0.25, draw(st.floats(0, 1))]))
                        for _ in range(dim)]}
 
     return strat()
 
 
-def _setup(case):
-    shape, vox = case["shape"], case["vox"]
-    if case.get("scalar_vox"):
+def _form(case):
+    return case.get("form") or ("scalar" if case.get("scalar_vox") else "list")
+
+
+def _make_grid(case):
+    """-> (grid, voxel sizes the reference has to use)"""
+    shape, vox = [int(n) for n in case["shape"]], [float(v) for v in case["vox"]]
+    dim = len(shape)
+    form = _form(case)
+    if form == "scalar":
         # Grid accepts a scalar voxel size (isotropic voxels); the reference uses the expanded list
-        vox = [vox[0]] * len(shape)
-        g = darsia.Grid(shape=tuple(shape), voxel_size=float(vox[0]))
-    else:
-        g = darsia.Grid(shape=tuple(shape), voxel_size=list(vox))
-    ref = RefGrid(shape, vox)
+        return darsia.Grid(shape=tuple(shape), voxel_size=float(vox[0])), [vox[0]] * dim
+    if form == "default":
+        # voxel size omitted: unit voxels; the shape is handed over as a list (as generate_grid does)
+        return darsia.Grid(list(shape)), [1.0] * dim
+    if form == "intlist":
+        # Python integers as voxel sizes (as in tests/unit/test_fv.py: voxel_size=[0.5, 0.25, 2])
+        return darsia.Grid(shape=tuple(shape), voxel_size=[int(v) for v in vox]), vox
+    if form == "image":
+        # the grid of an image: voxel size = dimensions / number of voxels (C07 checks that part)
+        dims = [shape[i] * vox[i] for i in range(dim)]
+        img = darsia.Image(np.zeros(tuple(shape)), space_dim=dim, dimensions=list(dims), series=False,
+                           scalar=True)
+        return darsia.generate_grid(img), [dims[i] / shape[i] for i in range(dim)]
+    return darsia.Grid(shape=tuple(shape), voxel_size=list(vox)), vox
+
+
+def _setup(case, env=None):
+    if env is not None:
+        return env
+    g, vox = _make_grid(case)
+    ref = RefGrid(case["shape"], vox)
     rng = np.random.default_rng(case["pseed"])
     return g, ref, rng
+
+
+def _scale(case):
+    return float(2.0 ** int(case.get("sc", 0)))
 
 
 def _t(case):
@@ -67,21 +126,32 @@ def _nt(case):
 
 
 def _key(case):
-    return [case["shape"], case["vox"], case["pseed"], case.get("pt"), bool(case.get("scalar_vox"))]
+    return [case["shape"], case["vox"], case["pseed"], case.get("pt"), _form(case), int(case.get("sc", 0)),
+            case.get("ops")]
 
 
 def _lab(case):
+    sc = int(case.get("sc", 0))
     return (f"dim{len(case['shape'])}", case["vk"], "thin" if 1 in case["shape"] else "thick",
-            "voxel-size-scalar" if case.get("scalar_vox") else "voxel-size-list")
+            "voxel-size-scalar" if _form(case) == "scalar" else "voxel-size-list",
+            "grid-form-" + _form(case),
+            "data-order-one" if sc == 0 else ("data-tiny" if sc < 0 else "data-huge"))
 
 
 def _rtol(case):
-    return 0.0 if case["vk"] in ("unit", "pow2") else 4e-15
+    return 0.0 if case["vk"] in ("unit", "pow2", "integer") else 4e-15
 
 
-def check_divergence(case):
-    g, ref, rng = _setup(case)
+def _unchanged(kind, what, before, after, t):
+    """An operator / projection must not write into the arrays handed to it."""
+    if before.shape != np.shape(after) or not np.array_equal(before, after):
+        raise Violation(kind, f"{what} was modified in place by the call", t)
+
+
+def check_divergence(case, env=None):
+    g, ref, rng = _setup(case, env)
     t = _t(case)
+    sc = _scale(case)
     div = darsia.FVDivergence(g).mat
     if div.shape != (ref.num_cells, ref.num_faces):
         raise Violation("div-shape", f"{div.shape}", t)
@@ -96,60 +166,89 @@ def check_divergence(case):
         cs = np.asarray(div.sum(axis=0)).ravel()
         if np.any(cs != 0.0):
             raise Violation("div-colsum", f"column sums not zero: max {np.abs(cs).max()!r}", t)
-        u = rng.integers(-8, 9, size=ref.num_faces).astype(float)
+        u = rng.integers(-8, 9, size=ref.num_faces).astype(float) * sc
+        u0 = u.copy()
         tot = float(np.sum(div.dot(u)))
-        bound = 0.0 if case["vk"] != "generic" else 1e-13 * np.sum(np.abs(want) @ np.abs(u))
+        bound = 0.0 if _rtol(case) == 0.0 else 1e-13 * np.sum(np.abs(want) @ np.abs(u))
         if abs(tot) > bound:
             raise Violation("div-total", f"1^T div u = {tot!r}", t)
         # each cell: net outflow = sum over its faces of +-area*u
         net = want @ u
         if not np.allclose(div.dot(u), net, rtol=1e-13, atol=1e-13 * (np.abs(want) @ np.abs(u)).max()):
             raise Violation("div-apply", "div.dot(u) differs from net outflow", t)
+        _unchanged("div-flux-mutated", "the face flux", u0, u, t)
     return Outcome(_nt(case), _key(case), _lab(case))
 
 
-def check_adjoint(case):
-    g, ref, rng = _setup(case)
+def check_adjoint(case, env=None):
+    g, ref, rng = _setup(case, env)
     t = _t(case)
+    sc = _scale(case)
     div = darsia.FVDivergence(g).mat
-    p = rng.integers(-8, 9, size=ref.num_cells).astype(float)
+    p = rng.integers(-8, 9, size=ref.num_cells).astype(float) * sc
     got = div.T.dot(p)
     con = ref.connectivity()
     want = np.array([ref.face_area[d] * (p[con[f, 0]] - p[con[f, 1]])
                      for f, (d, _) in enumerate(ref.faces)]) if ref.num_faces else np.zeros(0)
     if got.shape != want.shape or not np.allclose(got, want, rtol=1e-14, atol=0):
         raise Violation("adjoint", "div^T p is not area*(p_lo - p_hi), i.e. minus the face difference", t)
-    u = rng.integers(-8, 9, size=ref.num_faces).astype(float)
+    u = rng.integers(-8, 9, size=ref.num_faces).astype(float) * sc
     lhs = float(p @ div.dot(u))
     rhs = float(u @ got)
     # both sides are sums of products area * p * u that may cancel: rounding is relative to the
     # sum of the magnitudes, not to the (possibly tiny) result
     mag = float(np.abs(p) @ (np.abs(ref.divergence()) @ np.abs(u))) if ref.num_faces else 0.0
-    if abs(lhs - rhs) > 1e-13 * (1 + mag):
+    if abs(lhs - rhs) > 1e-13 * mag:
         raise Violation("adjoint-identity", f"<p, div u> = {lhs!r} but <div^T p, u> = {rhs!r}", t)
     return Outcome(_nt(case), _key(case), _lab(case))
 
 
-def check_mass(case):
-    g, ref, rng = _setup(case)
+def _is_scaled_identity(mat, n, vol):
+    """sparse comparison with vol x identity (n x n): every diagonal entry = vol (> 0), no entry elsewhere"""
+    if mat.shape != (n, n) or not np.allclose(mat.diagonal(), vol * np.ones(n), rtol=4e-15, atol=0):
+        return False
+    if mat.nnz == n:  # n stored entries, n of them on the diagonal
+        return True
+    coo = mat.tocoo()
+    return not np.any(coo.data[coo.row != coo.col] != 0.0)
+
+
+def check_mass(case, env=None):
+    g, ref, rng = _setup(case, env)
     t = _t(case)
-    mc = darsia.FVMass(g, "cells").mat
-    if mc.shape != (ref.num_cells, ref.num_cells):
-        raise Violation("mass-shape", f"cells {mc.shape}", t)
-    if not np.allclose(mc.toarray(), ref.vol * np.eye(ref.num_cells), rtol=4e-15, atol=0):
-        raise Violation("mass-cells", "cell mass matrix is not voxel volume x identity", t)
+    # call forms: explicit mode (positional / keyword) and the default mode, which is the one the only
+    # caller (the Wasserstein discretisation) uses for the cell mass matrix
+    for how, mc in (("positional", darsia.FVMass(g, "cells").mat), ("default", darsia.FVMass(g).mat)):
+        if mc.shape != (ref.num_cells, ref.num_cells):
+            raise Violation("mass-shape", f"cells ({how} mode) {mc.shape}", t)
+        if not _is_scaled_identity(mc, ref.num_cells, ref.vol):
+            raise Violation("mass-cells" if how == "positional" else "mass-cells:default-mode",
+                            f"cell mass matrix ({how} mode) is not voxel volume x identity", t)
+    # applied to a cell field: the integral of the field
+    sc = _scale(case)
+    q = rng.integers(-8, 9, size=ref.num_cells).astype(float) * sc
+    got = darsia.FVMass(g).mat.dot(q)
+    if got.shape != q.shape or not np.allclose(got, ref.vol * q, rtol=4e-15, atol=0):
+        raise Violation("mass-apply", "cell mass matrix applied to a field is not volume x field", t)
     if ref.num_faces > 0:
-        mf = darsia.FVMass(g, "faces").mat
-        if mf.shape != (ref.num_faces, ref.num_faces):
-            raise Violation("mass-shape", f"faces {mf.shape}", t)
-        if not np.allclose(mf.toarray(), ref.vol * np.eye(ref.num_faces), rtol=4e-15, atol=0):
-            raise Violation("mass-faces", "lumped face mass matrix is not voxel volume x identity", t)
+        for how, mf in (("default", darsia.FVMass(g, "faces").mat), ("positional", darsia.FVMass(g, "faces", True).mat),
+                        ("keyword", darsia.FVMass(g, mode="faces", lumping=True).mat)):
+            if mf.shape != (ref.num_faces, ref.num_faces):
+                raise Violation("mass-shape", f"faces ({how} lumping) {mf.shape}", t)
+            if not _is_scaled_identity(mf, ref.num_faces, ref.vol):
+                raise Violation("mass-faces", f"lumped face mass matrix ({how} lumping) is not voxel volume x "
+                                "identity", t)
+        # The consistent (non-lumped) face mass matrix is documented as not implemented. Should it become
+        # available, the statement only promises the scaling by the voxel volume (not the lumped values).
         try:
-            darsia.FVMass(g, "faces", lumping=False)
+            full = darsia.FVMass(g, "faces", lumping=False).mat
         except NotImplementedError:
             pass
         else:
-            raise Violation("mass-nolump", "lumping=False did not raise NotImplementedError", t)
+            unit = darsia.FVMass(darsia.Grid(shape=tuple(ref.shape)), "faces", lumping=False).mat
+            if full.shape != (ref.num_faces, ref.num_faces) or not np.allclose(
+                    full.toarray(), ref.vol * unit.toarray(), rtol=1e-14, atol=0):
+                raise Violation("mass-nolump", "non-lumped face mass matrix does not scale by the voxel volume", t)
     return Outcome(_nt(case), _key(case), _lab(case))
 
 
@@ -169,95 +268,158 @@ def _pts(case, rng, dim):
     return pts
 
 
-def check_face_to_cell(case):
-    g, ref, rng = _setup(case)
+def _f2c_faces(ref):
+    """(*shape, dim) tables: number of the lower / upper face of each cell along each axis, -1 on the
+    outer boundary (triple loop over the independent face enumeration)"""
+    lo_f = -np.ones((*ref.shape, ref.dim), dtype=int)
+    hi_f = -np.ones((*ref.shape, ref.dim), dtype=int)
+    for idx in np.ndindex(*ref.shape):
+        for d in range(ref.dim):
+            lo = list(idx)
+            lo[d] -= 1
+            lo_f[idx + (d,)] = ref.face_of(d, tuple(lo))
+            hi_f[idx + (d,)] = ref.face_of(d, idx)
+    return lo_f, hi_f
+
+
+def _f2c_ref(tables, u, p):
+    """component d of a cell: linear interpolation between the lower and the upper face of the cell along
+    axis d (outer boundary faces carry no flux)"""
+    lo_f, hi_f = tables
+    ue = np.append(np.asarray(u, dtype=float), 0.0)  # index -1 -> 0.0
+    p = np.asarray(p, dtype=float)
+    return (1 - p) * ue[lo_f] + p * ue[hi_f]
+
+
+def _pt_class(case):
+    pt = case.get("pt")
+    if pt is None:
+        return "pt-fixed-set"
+    if all(p in (0.0, 1.0) for p in pt):
+        return "pt-corner"
+    if all(p == 0.5 for p in pt):
+        return "pt-centre"
+    return "pt-on-face" if any(p in (0.0, 1.0) for p in pt) else "pt-inside"
+
+
+def check_face_to_cell(case, env=None):
+    g, ref, rng = _setup(case, env)
     t = _t(case)
     dim = ref.dim
     shape = ref.shape
-    u = rng.integers(-8, 9, size=ref.num_faces).astype(float)
+    sc = _scale(case)
+    u = rng.integers(-8, 9, size=ref.num_faces).astype(float) * sc
+    u0 = u.copy()
+    tol = dict(rtol=1e-14, atol=1e-14 * sc)
+    tables = _f2c_faces(ref)
     # default point = centre = mean of the two opposite faces
     default = darsia.face_to_cell(g, u)
     n = 0
     for pt in [None] + _pts(case, rng, dim):
-        arg = pt if (pt is None or dim > 1) else float(pt[0])
-        got = darsia.face_to_cell(g, u, pt=arg) if pt is not None else default
-        if got.shape != (*shape, dim):
-            raise Violation("f2c-shape", f"{got.shape}", t)
+        forms = [("default", None)] if pt is None else [("array", pt.copy())]
+        if pt is not None and dim == 1:
+            # 1-D: a plain number (a Gauss point of quadrature.gauss_reference_cell(1, .)) as well as a
+            # one-element array (a row of quadrature.reference_cell_corners(1)) - both reach face_to_cell
+            forms = [("number", float(pt[0])), ("array", pt.copy())]
         p = np.full(dim, 0.5) if pt is None else pt
-        want = np.zeros((*shape, dim))
-        for idx in np.ndindex(*shape):
-            for d in range(dim):
-                lo = list(idx)
-                lo[d] -= 1
-                f_lo = ref.face_of(d, tuple(lo))
-                f_hi = ref.face_of(d, idx)
-                u_lo = u[f_lo] if f_lo >= 0 else 0.0
-                u_hi = u[f_hi] if f_hi >= 0 else 0.0
-                want[idx + (d,)] = (1 - p[d]) * u_lo + p[d] * u_hi
-        n += 1
-        if not np.allclose(got, want, rtol=1e-14, atol=1e-14):
-            bad = tuple(np.argwhere(~np.isclose(got, want, rtol=1e-14, atol=1e-14))[0])
-            raise Violation("f2c-value", f"pt={None if pt is None else p.tolist()} cell/comp {bad}: "
-                            f"{got[bad]!r} vs linear interpolation {want[bad]!r}", t)
+        want = _f2c_ref(tables, u, p)
+        for how, arg in forms:
+            got = default if pt is None else darsia.face_to_cell(g, u, pt=arg)
+            if got.shape != (*shape, dim):
+                raise Violation("f2c-shape", f"pt given as {how}: {got.shape}", t)
+            n += 1
+            if not np.allclose(got, want, **tol):
+                bad = tuple(np.argwhere(~np.isclose(got, want, **tol))[0])
+                raise Violation("f2c-value" if how != "array" or dim > 1 else "f2c-value:pt-array-1d",
+                                f"pt={None if pt is None else p.tolist()} (given as {how}) cell/comp {bad}: "
+                                f"{got[bad]!r} vs linear interpolation {want[bad]!r} (flux scale {sc!r})", t)
+            if how == "array":
+                _unchanged("f2c-point-mutated", "the evaluation point", pt, arg, t)
     # linear in the flux
-    u2 = rng.integers(-8, 9, size=ref.num_faces).astype(float)
+    u2 = rng.integers(-8, 9, size=ref.num_faces).astype(float) * sc
     pt = _pts(case, rng, dim)[-1]
     arg = pt if dim > 1 else float(pt[0])
     a = darsia.face_to_cell(g, u, pt=arg)
     b = darsia.face_to_cell(g, u2, pt=arg)
     c = darsia.face_to_cell(g, 2 * u - 3 * u2, pt=arg)
-    if not np.allclose(c, 2 * a - 3 * b, rtol=1e-13, atol=1e-13):
+    if not np.allclose(c, 2 * a - 3 * b, rtol=1e-13, atol=1e-13 * sc):
         raise Violation("f2c-linear", "face_to_cell is not linear in the flux", t)
-    return Outcome(_nt(case), _key(case), _lab(case), evals=n)
+    # integer-typed fluxes (tests/unit/test_fv.py feeds np.arange): same reconstruction
+    if 0 <= int(case.get("sc", 0)) <= 40:
+        ui = u.astype(np.int64)
+        got = darsia.face_to_cell(g, ui, pt=arg)
+        if got.shape != a.shape or not np.allclose(got, _f2c_ref(tables, u, pt), **tol):
+            raise Violation("f2c-integer-flux", "reconstruction of an integer-typed face flux differs from the "
+                            "linear interpolation of its values", t)
+    # results handed out earlier stay what they were (the library evaluates at several quadrature points
+    # of one grid and combines the results), the flux is only read
+    if not np.allclose(default, _f2c_ref(tables, u0, np.full(dim, 0.5)), **tol):
+        raise Violation("f2c-result-overwritten", "the cell flux returned by the first call changed during later "
+                        "calls on the same grid", t)
+    _unchanged("f2c-flux-mutated", "the face flux", u0, u, t)
+    return Outcome(_nt(case), _key(case), _lab(case) + (_pt_class(case),), evals=n)
 
 
-def check_cell_to_face(case):
-    g, ref, rng = _setup(case)
+def _means(ref, con, comp, mode):
+    want = np.zeros(ref.num_faces)
+    for d in range(ref.dim):
+        fs = ref.faces_per_axis[d]
+        if len(fs) == 0:
+            continue
+        flat = np.asarray(comp[d], dtype=float).ravel("F")
+        a, b = flat[con[fs, 0]], flat[con[fs, 1]]
+        want[fs] = 0.5 * (a + b) if mode == "arithmetic" else 2.0 / (1.0 / a + 1.0 / b)
+    return want
+
+
+def check_cell_to_face(case, env=None):
+    g, ref, rng = _setup(case, env)
     t = _t(case)
     dim = ref.dim
     shape = ref.shape
     con = ref.connectivity()
-    from scipy.stats import hmean  # noqa: F401  (reference below is written out by hand)
+    sc = _scale(case)
 
     n = 0
+    kept = []
     for kind in ("scalar", "scalar1", "vector", "tensor"):
-        if kind == "scalar":
-            q = rng.integers(1, 17, size=shape) / 4.0
-            comp = [q] * dim
-        elif kind == "scalar1":
-            q = rng.integers(1, 17, size=(*shape, 1)) / 4.0
-            comp = [q[..., 0]] * dim
-        elif kind == "vector":
-            if dim == 1:
-                continue  # (n,1) is the scalar1 layout
-            q = rng.integers(1, 17, size=(*shape, dim)) / 4.0
-            comp = [q[..., d] for d in range(dim)]
-        else:
-            q = rng.integers(1, 17, size=(*shape, dim, dim)) / 4.0
-            comp = [q[..., d, d] for d in range(dim)]
+        if kind == "vector" and dim == 1:
+            continue  # (n,1) is the scalar1 layout
         for mode in ("arithmetic", "harmonic"):
+            # harmonic mean: positive values; arithmetic mean: any sign, zeros included
+            lo = 1 if mode == "harmonic" else -16
+            if kind == "scalar":
+                q = rng.integers(lo, 17, size=shape) / 4.0 * sc
+                comp = [q] * dim
+            elif kind == "scalar1":
+                q = rng.integers(lo, 17, size=(*shape, 1)) / 4.0 * sc
+                comp = [q[..., 0]] * dim
+            elif kind == "vector":
+                q = rng.integers(lo, 17, size=(*shape, dim)) / 4.0 * sc
+                comp = [q[..., d] for d in range(dim)]
+            else:
+                q = rng.integers(lo, 17, size=(*shape, dim, dim)) / 4.0 * sc
+                comp = [q[..., d, d] for d in range(dim)]
+            q0 = q.copy()
             got = darsia.cell_to_face_average(g, q, mode)
             if got.shape != (ref.num_faces,):
                 raise Violation("c2f-shape", f"{kind}/{mode}: {got.shape}", t)
-            want = np.zeros(ref.num_faces)
-            for f, (d, _) in enumerate(ref.faces):
-                a = comp[d].ravel("F")[con[f, 0]]
-                b = comp[d].ravel("F")[con[f, 1]]
-                want[f] = 0.5 * (a + b) if mode == "arithmetic" else 2.0 / (1.0 / a + 1.0 / b)
+            want = _means(ref, con, comp, mode)
             n += 1
-            if not np.allclose(got, want, rtol=1e-13, atol=0):
-                bad = int(np.argwhere(~np.isclose(got, want, rtol=1e-13, atol=0))[0][0])
-                raise Violation("c2f-value", f"{kind}/{mode} face {bad}: {got[bad]!r} vs {want[bad]!r}", t)
+            # relative to the magnitude of the data (a mean of +a and -a is 0: rounding is not)
+            atol = 0.0 if mode == "harmonic" else 1e-15 * 4.0 * sc
+            if not np.allclose(got, want, rtol=1e-13, atol=atol):
+                bad = int(np.argwhere(~np.isclose(got, want, rtol=1e-13, atol=atol))[0][0])
+                raise Violation("c2f-value", f"{kind}/{mode} face {bad}: {got[bad]!r} vs {want[bad]!r} "
+                                f"(data scale {sc!r})", t)
+            _unchanged("c2f-field-mutated", f"the {kind} cell field ({mode})", q0, q, t)
+            kept.append((kind, mode, got, want, atol))
     # integer-typed cell fields (raw image data): same means as their float versions
     for dt in (np.uint8, np.uint16, np.int64):
         qi = rng.integers(1, 250, size=shape).astype(dt)
         for mode in ("arithmetic", "harmonic"):
             got = darsia.cell_to_face_average(g, qi, mode)
-            want = np.zeros(ref.num_faces)
-            qf = qi.astype(float).ravel("F")
-            for f in range(ref.num_faces):
-                a, b = qf[con[f, 0]], qf[con[f, 1]]
-                want[f] = 0.5 * (a + b) if mode == "arithmetic" else 2.0 / (1.0 / a + 1.0 / b)
+            want = _means(ref, con, [qi.astype(float)] * dim, mode)
             n += 1
             if got.shape != want.shape or not np.allclose(got, want, rtol=1e-13, atol=0):
                 raise Violation("c2f-integer-field", f"{np.dtype(dt).name}/{mode}: face average of an integer-typed "
@@ -268,43 +430,23 @@ def check_cell_to_face(case):
         pass
     else:
         raise Violation("c2f-mode", "unknown averaging mode accepted", t)
+    # face values handed out earlier are still the means of their own field
+    for kind, mode, got, want, atol in kept:
+        if not np.allclose(got, want, rtol=1e-13, atol=atol):
+            raise Violation("c2f-result-overwritten", f"the {kind}/{mode} face values changed during later calls "
+                            "on the same grid", t)
     return Outcome(_nt(case), _key(case), _lab(case), evals=n)
 
 
-def check_tangential(case):
-    g, ref, rng = _setup(case)
-    t = _t(case)
-    dim = ref.dim
-    if ref.num_faces == 0:
-        full = darsia.FVFullFaceReconstruction(g)(np.zeros(0))
-        if full.shape != (0, dim):
-            raise Violation("tang-shape", f"{full.shape}", t)
-        return Outcome(False, _key(case), _lab(case))
-    c = rng.integers(-8, 9, size=dim).astype(float)
-    u = np.zeros(ref.num_faces)
-    for f, (d, _) in enumerate(ref.faces):
-        u[f] = c[d]
-    full = darsia.FVFullFaceReconstruction(g)(u)
-    if full.shape != (ref.num_faces, dim):
-        raise Violation("tang-shape", f"{full.shape}", t)
-    for f, (d, _) in enumerate(ref.faces):
-        if full[f, d] != u[f]:
-            raise Violation("tang-normal", f"face {f}: normal component {full[f, d]!r} vs {u[f]!r}", t)
-    n_int = 0
-    for d in range(dim):
-        for f in np.asarray(g.interior_faces[d]).ravel():
-            n_int += 1
-            if dim >= 2 and not np.allclose(full[f], c, rtol=0, atol=1e-14):
-                raise Violation("tang-constant", f"interior face {f} (axis {d}): reconstructed "
-                                f"{full[f].tolist()} for the constant field {c.tolist()}", t)
-    # general field: tangential component = quarter of the sum over the existing tangential
-    # neighbour faces of both adjacent cells
-    u = rng.integers(-8, 9, size=ref.num_faces).astype(float)
-    full = darsia.FVFullFaceReconstruction(g)(u)
+def _tang_ref(ref, u):
+    """(num_faces, dim): normal component = the face's own flux; tangential component dp = quarter of the
+    sum over the existing faces of axis dp of both adjacent cells"""
     con = ref.connectivity()
     inv = {n: idx for idx, n in ref.cell_index.items()}
+    out = np.zeros((ref.num_faces, ref.dim))
     for f, (d, _) in enumerate(ref.faces):
-        for dp in range(dim):
+        out[f, d] = u[f]
+        for dp in range(ref.dim):
             if dp == d:
                 continue
             s = 0.0
@@ -315,36 +457,198 @@ def check_tangential(case):
                 for ff in (ref.face_of(dp, tuple(lo)), ref.face_of(dp, idx)):
                     if ff >= 0:
                         s += u[ff]
-            if abs(full[f, dp] - 0.25 * s) > 1e-13:
-                raise Violation("tang-average", f"face {f} (axis {d}) component {dp}: "
-                                f"{full[f, dp]!r} vs {0.25 * s!r}", t)
+            out[f, dp] = 0.25 * s
+    return out
+
+
+def check_tangential(case, env=None):
+    g, ref, rng = _setup(case, env)
+    t = _t(case)
+    dim = ref.dim
+    sc = _scale(case)
+    if ref.num_faces == 0:
+        full = darsia.FVFullFaceReconstruction(g)(np.zeros(0))
+        if full.shape != (0, dim):
+            raise Violation("tang-shape", f"{full.shape}", t)
+        return Outcome(False, _key(case), _lab(case))
+    c = rng.integers(-8, 9, size=dim).astype(float) * sc
+    u = np.zeros(ref.num_faces)
+    for f, (d, _) in enumerate(ref.faces):
+        u[f] = c[d]
+    # one operator object, applied repeatedly (the caller builds it once and keeps it)
+    recon = darsia.FVFullFaceReconstruction(g)
+    full = recon(u)
+    if full.shape != (ref.num_faces, dim):
+        raise Violation("tang-shape", f"{full.shape}", t)
+    for f, (d, _) in enumerate(ref.faces):
+        if full[f, d] != u[f]:
+            raise Violation("tang-normal", f"face {f}: normal component {full[f, d]!r} vs {u[f]!r}", t)
+    n_int = 0
+    for d in range(dim):
+        for f in np.asarray(g.interior_faces[d]).ravel():
+            n_int += 1
+            if dim >= 2 and not np.allclose(full[f], c, rtol=0, atol=1e-14 * sc):
+                raise Violation("tang-constant", f"interior face {f} (axis {d}): reconstructed "
+                                f"{full[f].tolist()} for the constant field {c.tolist()}", t)
+    full_const, full_const_then = full, full.copy()
+    # general field: tangential component = quarter of the sum over the existing tangential
+    # neighbour faces of both adjacent cells
+    u = rng.integers(-8, 9, size=ref.num_faces).astype(float) * sc
+    u0 = u.copy()
+    full = recon(u)
+    want = _tang_ref(ref, u)
+    if full.shape != want.shape or np.abs(full - want).max() > 1e-13 * sc:
+        f, dp = [int(k) for k in np.argwhere(np.abs(full - want) > 1e-13 * sc)[0]]
+        raise Violation("tang-average" if dp != ref.faces[f][0] else "tang-normal",
+                        f"face {f} (axis {ref.faces[f][0]}) component {dp}: {full[f, dp]!r} vs {want[f, dp]!r}", t)
+    _unchanged("tang-flux-mutated", "the normal flux", u0, u, t)
+    if not np.array_equal(full_const, full_const_then):
+        raise Violation("tang-result-overwritten", "the reconstruction returned by the first application changed "
+                        "when the operator was applied again", t)
+    again = darsia.FVFullFaceReconstruction(g)(u)
+    if not np.array_equal(again, full):
+        raise Violation("tang-operator-state", "a kept reconstruction operator and a newly built one disagree", t)
+    if 0 <= int(case.get("sc", 0)) <= 40:
+        # integer-typed normal fluxes (tests/unit/test_fv.py feeds np.arange)
+        gi = recon(u.astype(np.int64))
+        if gi.shape != want.shape or np.abs(gi - want).max() > 1e-13 * sc:
+            raise Violation("tang-integer-flux", "reconstruction of an integer-typed normal flux differs", t)
+    if dim >= 2:
+        # the tangential operator on its own: one array per tangential direction (the remaining axes in
+        # increasing order), or their concatenation (the default); .mat are the matrices behind it
+        tang = darsia.FVTangentialFaceReconstruction(g)
+        parts = tang(u, concatenate=False)
+        if len(parts) != dim - 1 or any(np.shape(p) != (ref.num_faces,) for p in parts):
+            raise Violation("tang-direct-shape", f"{[np.shape(p) for p in parts]}", t)
+        for f, (d, _) in enumerate(ref.faces):
+            for i, dp in enumerate([a for a in range(dim) if a != d]):
+                if abs(parts[i][f] - want[f, dp]) > 1e-13 * sc:
+                    raise Violation("tang-direct", f"face {f} (axis {d}), tangential direction {i} (axis {dp}): "
+                                    f"{parts[i][f]!r} vs {want[f, dp]!r}", t)
+        cat = tang(u)
+        if np.shape(cat) != ((dim - 1) * ref.num_faces,) or not np.array_equal(cat, np.concatenate(parts)):
+            raise Violation("tang-direct-concatenate", f"default call returns shape {np.shape(cat)}, not the "
+                            "concatenation of the tangential directions", t)
+        if len(tang.mat) != dim - 1:
+            raise Violation("tang-direct-shape", f"{len(tang.mat)} matrices", t)
+        for i, m in enumerate(tang.mat):
+            if m.shape != (ref.num_faces, ref.num_faces) or not np.array_equal(m.dot(u), parts[i]):
+                raise Violation("tang-direct-matrix", f"matrix {i} applied to the flux differs from the call", t)
+            rs = np.asarray(m.sum(axis=1)).ravel()
+            for d in range(dim):
+                fi = np.asarray(g.interior_faces[d]).ravel()
+                if np.any(rs[fi] != 1.0):
+                    raise Violation("tang-constant", f"matrix {i}: rows of interior faces of axis {d} do not sum "
+                                    "to one", t)
+        _unchanged("tang-flux-mutated", "the normal flux", u0, u, t)
     return Outcome(dim >= 2 and n_int > 0, _key(case), _lab(case))
 
 
+# ---- one grid object shared by all operators (as in the Wasserstein discretisation) ----
+
+_GRID_ATTRS = ("dim", "shape", "voxel_size", "face_vol", "num_cells", "num_faces", "num_faces_per_axis",
+               "faces_shape", "faces", "face_index", "interior_faces", "exterior_faces", "cell_index",
+               "cell_corners", "connectivity", "reverse_connectivity", "cell_corner_indices")
+
+
+def _same(a, b):
+    if isinstance(a, (list, tuple)):
+        return isinstance(b, (list, tuple)) and len(a) == len(b) and all(_same(x, y) for x, y in zip(a, b))
+    a, b = np.asarray(a), np.asarray(b)
+    return a.shape == b.shape and a.dtype == b.dtype and np.array_equal(a, b)
+
+
+def check_shared_grid(case):
+    """All operators of one discretisation are built from ONE grid object, in any order and repeatedly:
+    every law holds for every step of such a sequence, matrices built earlier keep their values and the
+    grid's tables are only read."""
+    g, vox = _make_grid(case)
+    ref = RefGrid(case["shape"], vox)
+    t = _t(case)
+    before = {a: copy.deepcopy(getattr(g, a)) for a in _GRID_ATTRS}
+    div0 = darsia.FVDivergence(g).mat
+    mass0 = darsia.FVMass(g).mat
+    laws = dict(_LAWS)
+    n = 0
+    for k, op in enumerate(list(case["ops"]) + ["divergence_is_net_outflow"]):
+        env = (g, ref, np.random.default_rng([int(case["pseed"]), k]))
+        try:
+            laws[op](case, env)
+        except Violation as v:
+            raise Violation("shared-grid:" + v.kind, f"step {k} ({op}) of {case['ops']}: {v.message}",
+                            dict(v.tags, step=k))
+        n += 1
+        for a in _GRID_ATTRS:
+            if not _same(before[a], getattr(g, a)):
+                raise Violation("shared-grid:grid-modified", f"grid.{a} changed during step {k} ({op}) of "
+                                f"{case['ops']}", t)
+    if not np.allclose(div0.toarray(), ref.divergence(), rtol=_rtol(case) * 4, atol=0):
+        raise Violation("shared-grid:matrix-changed", "the divergence matrix built first changed afterwards", t)
+    if not _is_scaled_identity(mass0, ref.num_cells, ref.vol):
+        raise Violation("shared-grid:matrix-changed", "the cell mass matrix built first changed afterwards", t)
+    return Outcome(_nt(case) and len(set(case["ops"])) >= 2, _key(case),
+                   _lab(case) + (f"ops{min(len(case['ops']), 6)}",), evals=n)
+
+
+_LAWS = [
+    ("divergence_is_net_outflow", check_divergence),
+    ("neg_adjoint", check_adjoint),
+    ("mass_matrices", check_mass),
+    ("face_to_cell_linear", check_face_to_cell),
+    ("cell_to_face_mean", check_cell_to_face),
+    ("tangential_reconstruction", check_tangential),
+]
+_LAW_NAMES = [name for name, _ in _LAWS]
+
+
+def enum_shared(tier):
+    """one grid per shape, the constructor forms / voxel classes / magnitudes of enum_cases in turn, the six
+    laws in a rotating order"""
+    by_shape = {}
+    for c in enum_cases(tier):
+        by_shape.setdefault(tuple(c["shape"]), []).append(c)
+    out = []
+    for i, variants in enumerate(by_shape.values()):
+        r = i % len(_LAW_NAMES)
+        out.append(dict(variants[i % len(variants)], ops=_LAW_NAMES[r:] + _LAW_NAMES[:r]))
+    return out
+
+
+def gen_shared(tier):
+    base = gen_cases(tier)
+
+    @st.composite
+    def strat(draw):
+        c = dict(draw(base))
+        c["ops"] = draw(st.lists(st.sampled_from(_LAW_NAMES), min_size=2, max_size=7))
+        return c
+
+    return strat()
+
+
 _RULE = ("exhaustive part: every shape in the C07 range x {unit, power-of-two anisotropic, generic} "
-         "voxel sizes with integer-valued random face fluxes / cell fields (exact arithmetic); random "
-         "part: Hypothesis-drawn shapes, voxel sizes and evaluation points; non-trivial = at least "
+         "voxel sizes (list / scalar / omitted / image-derived grid) with integer-valued random face fluxes / "
+         "cell fields times a power of two (exact arithmetic, magnitudes 2^-40 .. 2^33); random "
+         "part: Hypothesis-drawn shapes, voxel sizes, constructor forms, data magnitudes and evaluation "
+         "points; shared grid: operator sequences on one grid object; non-trivial = at least "
          "one axis with >= 2 cells (faces exist); tangential law: dim >= 2 with interior faces; "
-         "distinct = (shape, voxel sizes, payload seed, point)")
+         "distinct = (shape, voxel sizes, constructor form, payload seed, magnitude, point, sequence)")
 _SH = {"quick": 3, "thorough": 6}
 _N = {"quick": 300, "thorough": 5000}
 _RS = {"quick": 1, "thorough": 4}
 
 
 def _subs():
-    laws = [
-        ("divergence_is_net_outflow", check_divergence),
-        ("neg_adjoint", check_adjoint),
-        ("mass_matrices", check_mass),
-        ("face_to_cell_linear", check_face_to_cell),
-        ("cell_to_face_mean", check_cell_to_face),
-        ("tangential_reconstruction", check_tangential),
-    ]
     out = []
-    for name, fn in laws:
+    for name, fn in _LAWS:
         out.append(Sub(name, fn, enum=enum_cases, exhaustive=True, shards=_SH))
-    for name, fn in laws:
-        out.append(Sub(name + "_random", fn, gen=gen_cases, n=_N, shards=_RS))
+    out.append(Sub("shared_grid_sequence", check_shared_grid, enum=enum_shared, exhaustive=True, shards=_SH))
+    for name, fn in _LAWS:
+        # tangential law: interior faces need dim >= 2 and few single-cell axes (1-D: exhaustive part)
+        gen = gen_cases if fn is not check_tangential else (lambda tier: gen_cases(tier, (2, 3), False))
+        out.append(Sub(name + "_random", fn, gen=gen, n=_N, shards=_RS))
+    out.append(Sub("shared_grid_sequence_random", check_shared_grid, gen=gen_shared,
+                   n={"quick": 100, "thorough": 1500}, shards=_RS))
     return out
 
 
@@ -352,6 +656,7 @@ PROP = Prop(
     pid="C06",
     rule=_RULE,
     assumptions=["RefGrid incidence (independent enumeration) is the reference",
-                 "integer-valued payloads: exact for unit / power-of-two voxel sizes, 1e-13 otherwise"],
+                 "integer-valued payloads times a power of two: exact for unit / power-of-two / integer voxel "
+                 "sizes, 1e-13 relative to the data magnitude otherwise"],
     subs=_subs(),
 )
